@@ -34,6 +34,11 @@ def type_head(t):
     return m.group(1) if m else t[:30]
 
 
+def norm_kind(k):
+    """`assert!(cond, msg)` is `if !cond { panic!(msg) }`: one class, whichever way it is spelled"""
+    return "panic" if k in ("assert", "assert_eq", "assert_ne", "debug_assert", "debug_assert_eq", "debug_assert_ne") else k
+
+
 def hir_panic_index(tree):
     """[(line, kind, msg)] for panic-family macro expansions in a HIR tree"""
     out = []
@@ -53,7 +58,7 @@ def hir_panic_index(tree):
                 if x["k"] == "Lit" and x.get("lit") == "str" and x.get("v"):
                     msg = x["v"]
                     break
-            out.append((n["line"], kinds[-1], msg))
+            out.append((n["line"], norm_kind(kinds[-1]), msg))
             continue  # outermost only
         stack.extend(n.values())
     return out
@@ -75,10 +80,10 @@ def diverging_sites(F, fns):
                     hir_idx[root] = hir_panic_index(F.hir.get(root, {}))
                 msg = ""
                 for (ln, k, m) in hir_idx[root]:
-                    if ln == c.line and k == kinds[-1]:
+                    if ln == c.line and k == norm_kind(kinds[-1]):
                         msg = m
                         break
-                yield dict(kind=kinds[-1], msg="", info=msg, ctx=owner_of(F, f), fn=f, file=c.file, line=c.line)
+                yield dict(kind=norm_kind(kinds[-1]), msg="", info=msg, ctx=owner_of(F, f), fn=f, file=c.file, line=c.line)
             elif UNWRAPS.match(p) and not c.macros:
                 msg = ""
                 if p.endswith("expect") or p.endswith("expect_err"):
@@ -110,6 +115,17 @@ def diverging_sites(F, fns):
             if t["k"] == "Assert" and t["msg"] == "BoundsCheck" and not t.get("macros"):
                 yield dict(kind="index", msg="", ctx="[usize]", fn=f, file=t.get("file"), line=t.get("line"))
             elif t["k"] == "Assert" and t["msg"] in ("DivisionByZero", "RemainderByZero") and not t.get("macros"):
+                # `x / 2`: the check compares a non-zero CONSTANT divisor with 0 and can never fire
+                cl = (t.get("cond") or {}).get("place", {}).get("l")
+                const_nonzero = False
+                for b2 in f.mir["blocks"]:
+                    for st in b2["stmts"]:
+                        if st["k"] == "Assign" and st["place"]["l"] == cl and not st["place"]["p"] and st["rv"]["k"] == "BinaryOp" and st["rv"]["op"] == "Eq":
+                            a_, b_ = st["rv"]["a"], st["rv"]["b"]
+                            if a_.get("k") == "const" and b_.get("k") == "const" and re.match(r"^0_", str(b_.get("v"))) and not re.match(r"^0_", str(a_.get("v"))):
+                                const_nonzero = True
+                if const_nonzero:
+                    continue
                 yield dict(kind="assert:" + t["msg"], msg="", ctx=owner_of(F, f), fn=f, file=t.get("file"), line=t.get("line"))
 
 
@@ -386,6 +402,15 @@ def lookup_returning(F, fns):
             f = F.fns[g]
             if not f.mir:
                 continue
+            # error builders (`fn error<T>(..) -> Result<T, Diag>`): whatever they look up ends in the Err half,
+            # the generic Ok payload is never produced
+            if (f.output or "").startswith("std::result::Result<") and g in F.hir:
+                body_ = F.hir[g]["body"]
+                ctor = [x.get("callee") or "" for x in walk(body_) if x["k"] == "Call"]
+                other_results = [x for x in walk(body_) if x["k"] in ("Call", "MethodCall") and "Result<" in (x.get("ty") or "")
+                                 and not (x.get("callee") or "").endswith(("::Err", "::Ok"))]
+                if any(c.endswith("::Err") for c in ctor) and not any(c.endswith("::Ok") for c in ctor) and not other_results:
+                    continue
             if g not in flows:
                 fl = FnFlow(f)
                 flows[g] = Origins(fl, keep=not_residual).of_local(0)
